@@ -7,7 +7,7 @@
    (ball), u = 2^-prec: the returned point lies within 1 + 3u of the origin.  Statement only; proofs in Proofs/UnitNormFl.v.        *)
 From Coq Require Import ZArith Bool Reals.
 From Flocq Require Import Core.Core IEEE754.BinarySingleNaN.
-From RD Require Import Proofs.FlConst Proofs.AffineFl Proofs.UnitNormFl Proofs.UnitSphereFl Gen.FlProg.
+From RD Require Import Proofs.FlConst Proofs.AffineFl Proofs.UnitNormFl Proofs.UnitSphereFl Proofs.UnitCircleFl Gen.FlProg.
 Open Scope R_scope.
 
 Theorem C12_accept_fl_def : forall prec emax (Hp : Prec_gt_0 prec) (Hpe : Prec_lt_emax prec emax) (x1 x2 x3 : binary_float prec emax),
@@ -93,6 +93,26 @@ Theorem C12_sphere_fl_finite : forall prec emax (Hp : Prec_gt_0 prec) (Hpe : Pre
   Rabs (B2R (sphere_z_fl prec emax Hp Hpe s)) <= 1 /\ 0 <= B2R f <= 2.
 Proof. exact sphere_fl_finite. Qed.
 
+(* ---- UnitCircle (unit_circle.rs:49-63), five translated sites.  For finite x1, x2 in [-1, 1] with a positive float sum the inequality
+   |diff| <= sum holds between the FLOATS (rounding is monotone and odd), so the first component diff / sum is a finite float in
+   [-1, 1] exactly.  (The second quotient and the norm-1 clause at the float level are not proved; 4-ulp norm oracle.) *)
+Theorem C12_circle_fl_source : forall prec emax (Hp : Prec_gt_0 prec) (Hpe : Prec_lt_emax prec emax) (x1 x2 d s : binary_float prec emax),
+  src_unit_circle_sum prec emax Hp Hpe x1 x2 = circle_sum_fl prec emax Hp Hpe x1 x2 /\
+  src_unit_circle_accept prec emax Hp Hpe s = circle_accept_fl prec emax Hp Hpe s /\
+  src_unit_circle_diff prec emax Hp Hpe x1 x2 = circle_diff_fl prec emax Hp Hpe x1 x2 /\
+  src_unit_circle_c0 prec emax Hp Hpe d s = circle_c0_fl prec emax Hp Hpe d s /\
+  src_unit_circle_c1 prec emax Hp Hpe x1 x2 s = circle_c1_fl prec emax Hp Hpe x1 x2 s.
+Proof. intros. repeat split; reflexivity. Qed.
+
+Theorem C12_circle_c0_fl_unit : forall prec emax (Hp : Prec_gt_0 prec) (Hpe : Prec_lt_emax prec emax) (x1 x2 : binary_float prec emax),
+  is_finite x1 = true -> is_finite x2 = true -> Rabs (B2R x1) <= 1 -> Rabs (B2R x2) <= 1 ->
+  0 < B2R (circle_sum_fl prec emax Hp Hpe x1 x2) ->
+  is_finite (circle_sum_fl prec emax Hp Hpe x1 x2) = true /\ is_finite (circle_diff_fl prec emax Hp Hpe x1 x2) = true /\
+  Rabs (B2R (circle_diff_fl prec emax Hp Hpe x1 x2)) <= B2R (circle_sum_fl prec emax Hp Hpe x1 x2) /\
+  is_finite (circle_c0_fl prec emax Hp Hpe (circle_diff_fl prec emax Hp Hpe x1 x2) (circle_sum_fl prec emax Hp Hpe x1 x2)) = true /\
+  Rabs (B2R (circle_c0_fl prec emax Hp Hpe (circle_diff_fl prec emax Hp Hpe x1 x2) (circle_sum_fl prec emax Hp Hpe x1 x2))) <= 1.
+Proof. exact circle_c0_fl_unit. Qed.
+
 (* non-vacuity: binary64 and binary32 meet the format hypotheses *)
 Example C12_fl_binary64 : forall x1 x2 : binary_float 53 1024,
   is_finite x1 = true -> is_finite x2 = true -> Rabs (B2R x1) <= 1 -> Rabs (B2R x2) <= 1 ->
@@ -114,3 +134,5 @@ Print Assumptions C12_fl_source.
 Print Assumptions C12_sphere_fl_source.
 Print Assumptions C12_Btwo_correct.
 Print Assumptions C12_sphere_fl_finite.
+Print Assumptions C12_circle_fl_source.
+Print Assumptions C12_circle_c0_fl_unit.
